@@ -37,6 +37,17 @@ def c01(ctx):
                   ["chrono-tz offsets are facts", "alpha/gamma projection is faithful"])
 
 
+def zinc_mutant_vectors(ctx, q, styles):
+    """prefixes and single edits of the spec writer's documents: quick = depth-0 documents, sampled replacement set;
+    thorough = depth-0 documents with the full replacement set plus every third depth-1 document with the sampled set
+    (the full set on all depth-1 documents is several million events)"""
+    if q:
+        return [{"op": "dec.zinc.mutants", "text": t, "full": False} for t in texts_of_universe(ctx, 0, styles)]
+    v = [{"op": "dec.zinc.mutants", "text": t, "full": True} for t in texts_of_universe(ctx, 0, styles)]
+    v += [{"op": "dec.zinc.mutants", "text": t, "full": False} for t in texts_of_universe(ctx, 1, styles)[::3]]
+    return v
+
+
 def text_family(ctx, mode, big):
     """MC_Texts structured families: "esc" (string / uri escapes) and "num" (number spellings)"""
     v, _ = tlc_mc(ctx, "MC_Texts", consts={"MaxLen": 4 if big else 3, "Mode": '"%s"' % mode, "EmitVectors": "TRUE", "KindFirst": "TRUE"},
@@ -203,10 +214,10 @@ def c03(ctx):
                    invariants=["ReaderTotal", "Emit"], workers=8, timeout=3000)
     vt = vt + ve + text_family(ctx, "num", not q)
     # 2. prefixes and single edits of the documents the spec writer produces for the small universe
-    docs = texts_of_universe(ctx, 0 if q else 1, [0, 3, 9])
-    muts = [{"op": "dec.zinc.mutants", "text": t, "full": not q} for t in docs]
-    hv = hayson_universe(ctx, 0 if q else 1)
-    jm = [{"op": "dec.json.tree.mutants", "tree": x["trees"][0], "full": not q} for x in hv]
+    muts = zinc_mutant_vectors(ctx, q, [0, 3, 9])
+    jm = [{"op": "dec.json.tree.mutants", "tree": x["trees"][0], "full": not q} for x in hayson_universe(ctx, 0)]
+    if not q:
+        jm += [{"op": "dec.json.tree.mutants", "tree": x["trees"][0], "full": False} for x in hayson_universe(ctx, 1)[::3]]
     # 3. nesting bombs (child process), 4. reader schedules and I/O faults
     bombs = bomb_vectors({"zinc", "json"}, q)
     sched_docs = [t for t in texts_of_universe(ctx, 1, [0]) if len(t) <= 24]
@@ -226,7 +237,7 @@ def c03(ctx):
                   "GEN: all texts of length <= %d over a 32-symbol class alphabet (TLC shows the TLA+ reader total on them and the harness "
                   "runs from_str, Parser::parse_value over a reader and the lazy row iterator); all JSON objects of <= 2 members over the "
                   "names/values the Hayson visitor inspects; every prefix and single edit (delete/duplicate/replace/insert by class "
-                  "representatives) of the documents the spec writers produce for the depth-%d universe; nesting bombs n in 1..10^5 "
+                  "representatives; thorough: full representative set on depth-0 documents, sampled set on every third depth-1 document) of the documents the spec writers produce for the depth-%d universe; nesting bombs n in 1..10^5 "
                   "in a child process; reader schedules (all chunkings of texts <= 10 bytes, 1-byte reads, Interrupted before every "
                   "byte, I/O error at every offset). REC: %d random byte strings / corpus splices. Outcome monitors: catch_unwind, "
                   "worker process with time limit (retried once alone), child exit status. distinct = distinct inputs"
@@ -250,8 +261,7 @@ def c10(ctx):
     ev2 = hs_rec(ctx, "fuzz", n)
     ctx.bads += tlc_trace(ctx, "Trace_Total", ev2, shards=14)
     note_events(ctx, ev2, key=lambda e: e.get("text"), trivial=lambda e: e.get("reenc", {}).get("display") == "skipped")
-    docs = texts_of_universe(ctx, 0 if q else 1, [0, 9])
-    ev3 = hs_run(ctx, [{"op": "dec.zinc.mutants", "text": t, "full": not q} for t in docs], "mut")
+    ev3 = hs_run(ctx, zinc_mutant_vectors(ctx, q, [0, 9]), "mut")
     ctx.bads += tlc_trace(ctx, "Trace_Total", ev3, shards=14)
     note_events(ctx, ev3, key=lambda e: e.get("text"), trivial=lambda e: e.get("reenc", {}).get("display") == "skipped")
     return finish(ctx,
@@ -300,7 +310,7 @@ def c11(ctx):
         sched_docs = sched_docs[::4]
     sched = [{"op": "dec.sched.all", "text": t} for t in sched_docs]
     big = [{"op": "dec.sched.big", "rows": 300, "seed": ctx.seed + i} for i in range(1 if q else 6)]
-    muts = [{"op": "dec.zinc.mutants", "text": t, "full": not q} for t in texts_of_universe(ctx, 0, [0, 9])]
+    muts = zinc_mutant_vectors(ctx, q, [0, 9])
     ev1 = hs_run(ctx, v1 + v2 + files + sched + big + muts + stream, "gen")
     ctx.bads += tlc_trace(ctx, "Trace_Total", ev1, shards=14, per_shard_min=50)
     note_events(ctx, ev1, key=lambda e: [e.get("text"), e.get("tree"), e.get("schedule"), e.get("fail_at"), e.get("path"), e.get("row")])
@@ -491,6 +501,51 @@ def c14(ctx):
     ev1 = hs_run(ctx, vecs, "hist")
     ctx.bads += tlc_trace_stateful(ctx, "Trace_NsCache", ev1, "defs.load", shards=12)
     note_events(ctx, ev1, key=lambda e: ["h", e.get("i")], trivial=lambda e: e.get("op") != "ns.qend")
+    # interleavings: TLC (simulation mode) walks random behaviours of the protocol for 2 (thorough: also 3) threads, pairs of
+    # queries and every shard assignment; each finished behaviour is stepped through the real namespace - shard assignment
+    # forced on the real dashmaps, every thread held at the hook's gate and released one cache touch at a time in the
+    # model's order, the touch it is about to make compared with the model's (kind, map, key)
+    replays = []
+    for (threads, num) in ([("MCThreads", 400)] if q else [("MCThreads", 6000), ("MCThreads3", 3000)]):
+        v, _ = tlc_mc(ctx, "MC_NsReplay", spec="HSpec", simulate="num=%d" % num,
+                      consts={"Threads": "<- " + threads, "Syms": "<- MCSyms", "Graph": "<- MCGraph", "NShards": 2, "WriterPref": "FALSE",
+                              "Programs": "<- ProgsR", "KeepFirstGuard": "FALSE", "SeqOf": "<- RankedSeqOf"},
+                      invariants=["AnswerCorrect", "CacheCoherent", "NoPanic", "NoReentry", "Emit"], workers=1, timeout=3000)
+        seen = set()
+        for x in v:
+            k = json.dumps(x, sort_keys=True)
+            if k not in seen:
+                seen.add(k)
+                replays.append(x)
+    # self-test of the forcing: an insert into the shard another thread holds a guard on must block, into another shard not
+    def _S(t, k, m, key):
+        return {"t": t, "kind": k, "map": m, "key": key}
+    ctl_steps = [_S("t1", "get", "SUP", "a"), _S("t1", "contains", "SUP", "a"), _S("t1", "insert", "SUP", "a"), _S("t1", "get", "SUP", "a"),
+                 _S("t2", "get", "SUP", "b"), _S("t2", "contains", "SUP", "b"), _S("t2", "insert", "SUP", "b"), _S("t2", "get", "SUP", "b"),
+                 _S("t2", "drop", "SUP", ""), _S("t1", "drop", "SUP", "")]
+    ctl = [{"op": "ns.replay", "progs": {"t1": [["sup", "a"]], "t2": [["sup", "b"]]}, "shard": dict(a=1, b=sb, c=1, d=1, u=1), "steps": ctl_steps,
+            "results": {}} for sb in (1, 2)]
+    groups = []
+    for e in read_ndjson(hs_run(ctx, ctl, "ctl")):
+        if e.get("op") == "defs.load":
+            groups.append([])
+        groups[-1].append(e)
+    outc = [next((e["outcome"] for e in g if e.get("op") == "ns.replay"), "none") for g in groups]
+    if len(outc) != 2 or outc[0] == "ok":
+        # the insert did not block although the model's shard assignment says it must: the forcing does not work
+        raise ToolError("forced shard assignment self-test failed (an insert into a shard held by another thread's guard went through): %s" % outc)
+    # same shard: "stuck" is the expected outcome and is not judged; anything else (the implementation makes other touches than
+    # the model) is judged by the trace specification like every other replay, as is the whole different-shard control
+    keep = (groups[0] if outc[0] != "stuck" else []) + groups[1]
+    fctl = ctx.fresh("ctl") + ".ndjson"
+    for n_, e in enumerate(keep):
+        e["i"] = n_ + 1
+    write_ndjson(fctl, keep)
+    ctx.bads += tlc_trace_stateful(ctx, "Trace_NsCache", fctl, "defs.load", shards=1)
+    ctx.notes.append("forcing self-test: insert into a shard held by another thread's guard -> %s; into another shard -> %s" % tuple(outc))
+    ev3 = hs_run(ctx, replays, "replay")
+    ctx.bads += tlc_trace_stateful(ctx, "Trace_NsCache", ev3, "defs.load", shards=14)
+    note_events(ctx, ev3, key=lambda e: ["i", e.get("i")], trivial=lambda e: e.get("op") != "ns.replay")
     # real threads on cold namespaces, observed through the hook
     rounds = 60 if q else 3000
     ev2 = hs_rec(ctx, "ns", rounds)
@@ -516,12 +571,14 @@ def c14(ctx):
                   "blocking insert, writer- and reader-preferring shard locks, every shard assignment) checked exhaustively for 2%s threads "
                   "x every pair of queries on a diamond graph with an undefined supertype: AnswerCorrect, CacheCoherent, NoReentry, NoPanic, "
                   "GuardsReleased, deadlock freedom, Termination; a negative control (guard kept across the loop) must violate NoReentry. "
-                  "GEN: all 258 sequential histories of <= 3 queries replayed on cold namespaces. REC: %d rounds of 2/4/8/16 real threads "
+                  "GEN: all 258 sequential histories of <= 3 queries replayed on cold namespaces; interleavings from TLC's simulation of "
+                  "MC_NsReplay (2%s threads, programs of 1-2 queries, every shard assignment) stepped through the real namespace one "
+                  "cache touch at a time under a forced shard assignment, each touch compared with the model's. REC: %d rounds of 2/4/8/16 real threads "
                   "released by a barrier on a cold namespace (synthetic diamond graph; every 5th round the real defs), random "
                   "supertypes/inheritance/fits/reflect/relationship queries; the verif hook logs every cache touch and guard drop; "
                   "Trace_NsCache re-checks NoReentry per thread in program order, CacheCoherent on every served/inserted value, "
                   "GuardsReleased, answers = graph = same query alone on a cold namespace, no panic, no unfinished round (20 s watchdog). "
-                  "distinct = query executions" % ("" if q else "-3", rounds),
+                  "distinct = query executions" % ("" if q else "-3", "" if q else "-3", rounds),
                   ["real schedules cannot be forced: all interleavings are explored on the model, real runs are validated per thread "
                    "against the protocol invariants", "dashmap's shard locks are modelled as reader/writer locks under both preference disciplines"])
 
